@@ -311,3 +311,18 @@ prop("C03",
          {"name": "main", "build": "fast", "bin": "c03"},
          {"name": "miri", "build": "miri-sb", "bin": "c03", "shards": {"quick": 8, "thorough": 16}, "timeout": {"quick": 1500, "thorough": 7200}},
      ])
+
+prop("C07",
+     technique="runtime monitoring: counting #[global_allocator] (thread-local alloc/realloc/free/live-byte counters) bracketing a warmed-up measured section for every entry of a catalogue of the allocation-free API surface; self-tested positive/negative controls",
+     level_text=("A catalogue of ~200 entries, each constructed, warmed up, then measured over 2 000 (quick) / 200 000 (thorough) calls with varying inputs, must show 0 allocations, "
+                 "0 reallocations, 0 frees: all 132 integer conversions + float conversions through every route, sample ops for 14 formats, every Frame method at widths "
+                 "1/2/8/32, borrowed-slice conversions and in-place ops, Bounded/Fixed over array/&mut/Vec/Box storage (storage pointer and capacity unchanged), peak, RMS, "
+                 "envelope detectors with parameter changes, floor/linear/sinc interpolators, window functions, every signal source and adaptor, rate conversion with all "
+                 "three interpolators and varying ratios, fork by_ref under four schedule families, buffered, iterator conversions, lift, rms/envelope adaptors, windows and "
+                 "Windower chunks, 200 / 5 000 random adaptor trees, 60 / 2 000 random graphs (Graph/StableGraph, 1-64 nodes, cycles, parallel edges, all stock nodes incl. "
+                 "nested GraphNode). Documented exceptions are checked for what is promised: by_rc = exactly one allocation at creation, bus = no growth in lock-step. "
+                 "Exploration: an allocation on a path the catalogue does not drive is not seen; the catalogue is listed in the evidence notes."),
+     level_note="trusted: the counting allocator (self-tested every run: empty section reads 0/0/0, Vec growth reads >= 1, drop reads one free); measured closures are themselves allocation-free (no formatting, pre-sized buffers)",
+     rule=("cases are catalogue entries (each >= 2 000 measured calls), random adaptor trees and random graphs; non-trivial = every entry (the test-suite has no allocation test); "
+           "distinct = number of catalogue entries (by construction) + hash of tree expression / graph parameters; evaluations = measured calls"),
+     stages=[{"name": "main", "build": "fast", "bin": "c07"}])
